@@ -545,6 +545,11 @@ def deser_chain_cases(rng, tier, n_classes):
                 if r < 0.45:
                     src = rng.choice(kws)
                     doc = serde.dedupe_doc({"m": [[k, serde.to_doc(fd.get(k), v)] for k, v in src if v is not None]})
+                    if rng.random() < 0.4:
+                        # a single-point corruption: the Deserializer must refuse it or yield a well-formed instance
+                        doc = serde.dedupe_doc(serde.corrupt_doc(rng, doc))
+                        if not (isinstance(doc, dict) and "m" in doc) or serde.crosstype_duplicates(doc):
+                            continue
                     chain.append({"op": "deser", "doc": doc, "opts": rng.choice(opts_list)})
                 elif r < 0.6:
                     chain.append({"op": "reser", "opts": rng.choice(opts_list)})
